@@ -170,3 +170,7 @@ pub assume_specification<T, E, U, F: FnOnce(E) -> U> [std::task::Poll::<std::opt
             Poll::Ready(None) => r == Poll::<Option<Result<T, U>>>::Ready(None),
             Poll::Pending => r is Pending,
         };
+
+// ---- core::mem::take (A-core) ----
+pub assume_specification<T: Default> [std::mem::take] (x: &mut T) -> (r: T)
+    ensures r == *old(x), call_ensures(T::default, (), *final(x));
